@@ -45,14 +45,37 @@ pub struct AmtCase {
 
 impl AmtCase {
     pub fn content(&self) -> String {
-        format!("{}{}{}", self.prefix.replace("{ccy}", &self.ccy), self.amount, self.suffix)
+        format!(
+            "{}{}{}",
+            self.prefix.replace("{ccy}", &self.ccy),
+            self.amount,
+            self.suffix
+        )
     }
 }
 
 const NON_DECIMAL: &[(&str, &str)] = &[
-    ("nan", "NaN"), ("nan-lower", "nan"), ("inf", "inf"), ("neg-inf", "-inf"), ("infinity", "infinity"), ("exp", "1e3"), ("exp-neg", "1E-2"), ("plus", "+5"),
-    ("minus", "-5"), ("two-commas", "1,2,3"), ("lead-space", " 5"), ("trail-space", "5 "), ("hex", "0x1"), ("arabic", "٣,٥"), ("fullwidth", "５,０"),
-    ("only-comma", ","), ("dot-and-comma", "1.000,5"), ("underscore", "1_000"), ("neg-zero", "-0,"), ("plus-comma", "+1,00"), ("exp-comma", "1,0e2"),
+    ("nan", "NaN"),
+    ("nan-lower", "nan"),
+    ("inf", "inf"),
+    ("neg-inf", "-inf"),
+    ("infinity", "infinity"),
+    ("exp", "1e3"),
+    ("exp-neg", "1E-2"),
+    ("plus", "+5"),
+    ("minus", "-5"),
+    ("two-commas", "1,2,3"),
+    ("lead-space", " 5"),
+    ("trail-space", "5 "),
+    ("hex", "0x1"),
+    ("arabic", "٣,٥"),
+    ("fullwidth", "５,０"),
+    ("only-comma", ","),
+    ("dot-and-comma", "1.000,5"),
+    ("underscore", "1_000"),
+    ("neg-zero", "-0,"),
+    ("plus-comma", "+1,00"),
+    ("exp-comma", "1,0e2"),
 ];
 
 fn ccy_class(ccy: &str, with: bool) -> String {
@@ -67,7 +90,9 @@ fn ccy_class(ccy: &str, with: bool) -> String {
 
 fn digits_of(n: usize, seed: usize) -> String {
     // deterministic digit strings with a non-zero lead and non-zero tail
-    (0..n).map(|i| char::from(b'0' + (((seed * 7 + i * 3) % 9) + 1) as u8)).collect()
+    (0..n)
+        .map(|i| char::from(b'0' + (((seed * 7 + i * 3) % 9) + 1) as u8))
+        .collect()
 }
 
 pub fn enumerate(field_idx: usize, thorough: bool) -> Vec<AmtCase> {
@@ -75,15 +100,32 @@ pub fn enumerate(field_idx: usize, thorough: bool) -> Vec<AmtCase> {
     let mut ccys: Vec<&str> = Vec::new();
     if wc {
         for dec in [0u8, 2, 3, 4] {
-            let group: Vec<&str> = refs::CURRENCIES.iter().filter(|(_, d)| *d == dec).map(|(c, _)| *c).collect();
-            let take = if thorough { group.len() } else { group.len().min(if dec == 2 { 6 } else { 4 }) };
+            let group: Vec<&str> = refs::CURRENCIES
+                .iter()
+                .filter(|(_, d)| *d == dec)
+                .map(|(c, _)| *c)
+                .collect();
+            let take = if thorough {
+                group.len()
+            } else {
+                group.len().min(if dec == 2 { 6 } else { 4 })
+            };
             ccys.extend(group.into_iter().take(take));
         }
     } else {
         ccys.push("");
     }
     let mut out = Vec::new();
-    let mk = |ccy: &str, amount: String, spelling: &str| AmtCase { field: f.to_string(), prefix: p.to_string(), ccy: ccy.to_string(), amount, suffix: s.to_string(), max_len: ml, with_ccy: wc, spelling: spelling.to_string() };
+    let mk = |ccy: &str, amount: String, spelling: &str| AmtCase {
+        field: f.to_string(),
+        prefix: p.to_string(),
+        ccy: ccy.to_string(),
+        amount,
+        suffix: s.to_string(),
+        max_len: ml,
+        with_ccy: wc,
+        spelling: spelling.to_string(),
+    };
     for ccy in &ccys {
         for nd in 0..=5usize {
             for ni in [1usize, 2, 7, 10, 12, 13, 14, 15] {
@@ -137,11 +179,28 @@ pub fn oracle(c: &AmtCase, obs: &mut Obs) -> Vec<Violation> {
     let cc = ccy_class(&c.ccy, c.with_ccy);
     obs.nontrivial_str(&format!("{f}|{content}"));
     obs.class(&format!("spelling:{}", c.spelling));
-    obs.sample(&format!("{}:{}", c.spelling, if res.is_ok() { "accepted" } else { "rejected" }), || json!({"field": f, "content": content}));
+    obs.sample(
+        &format!(
+            "{}:{}",
+            c.spelling,
+            if res.is_ok() { "accepted" } else { "rejected" }
+        ),
+        || json!({"field": f, "content": content}),
+    );
     let dec = DecStr::parse(&c.amount);
-    let plain = dec.is_some() && c.amount.chars().all(|ch| ch.is_ascii_digit() || ch == ',' || ch == '.');
-    let mu = if c.with_ccy { refs::minor_units(&c.ccy) } else { None };
-    let sig_digits = dec.as_ref().map(|d| d.int.len() + d.frac.len()).unwrap_or(0);
+    let plain = dec.is_some()
+        && c.amount
+            .chars()
+            .all(|ch| ch.is_ascii_digit() || ch == ',' || ch == '.');
+    let mu = if c.with_ccy {
+        refs::minor_units(&c.ccy)
+    } else {
+        None
+    };
+    let sig_digits = dec
+        .as_ref()
+        .map(|d| d.int.len() + d.frac.len())
+        .unwrap_or(0);
     match &res {
         Ok(v) => {
             if !plain {
@@ -151,29 +210,55 @@ pub fn oracle(c: &AmtCase, obs: &mut Obs) -> Vec<Violation> {
                     obs.excluded("field61-spelling-starts-with-digit");
                     return out;
                 }
-                out.push(viol(format!("C06|{f}|non-decimal-accepted|{}", c.spelling), format!("{:?} accepted as {}", content, v.json)));
+                out.push(viol(
+                    format!("C06|{f}|non-decimal-accepted|{}", c.spelling),
+                    format!("{:?} accepted as {}", content, v.json),
+                ));
                 return out;
             }
             let d = dec.clone().unwrap();
             if c.amount.len() > c.max_len {
-                out.push(viol(format!("C06|{f}|too-long-accepted"), format!("amount {:?} has {} characters, the format allows {}", c.amount, c.amount.len(), c.max_len)));
+                out.push(viol(
+                    format!("C06|{f}|too-long-accepted"),
+                    format!(
+                        "amount {:?} has {} characters, the format allows {}",
+                        c.amount,
+                        c.amount.len(),
+                        c.max_len
+                    ),
+                ));
             }
             if let Some(m) = mu {
                 if d.significant_decimals() > m as usize {
-                    out.push(viol(format!("C06|{f}|precision-exceeded-accepted|{cc}"), format!("{:?}: {} decimals for {}", content, d.significant_decimals(), c.ccy)));
+                    out.push(viol(
+                        format!("C06|{f}|precision-exceeded-accepted|{cc}"),
+                        format!(
+                            "{:?}: {} decimals for {}",
+                            content,
+                            d.significant_decimals(),
+                            c.ccy
+                        ),
+                    ));
                     return out;
                 }
             }
             // value unchanged in MT
-            let big = sig_digits > 15 || d.int.len() + (mu.unwrap_or(0) as usize).max(d.frac.len()) > 15;
+            let big =
+                sig_digits > 15 || d.int.len() + (mu.unwrap_or(0) as usize).max(d.frac.len()) > 15;
             let suffix = if big { "|16digits" } else { "" };
             match split_swift(&v.swift) {
                 Some((_, outc)) => {
                     if !refs::approx_eq(&content, &outc) {
-                        out.push(viol(format!("C06|{f}|value-changed-mt|{cc}{suffix}"), format!("{:?} serialised as {:?}", content, outc)));
+                        out.push(viol(
+                            format!("C06|{f}|value-changed-mt|{cc}{suffix}"),
+                            format!("{:?} serialised as {:?}", content, outc),
+                        ));
                     } else if let Ok(v2) = (ops.parse)(&outc) {
                         if v2.json != v.json {
-                            out.push(viol(format!("C06|{f}|reparse-differs|{cc}{suffix}"), format!("{} vs {}", v.json, v2.json)));
+                            out.push(viol(
+                                format!("C06|{f}|reparse-differs|{cc}{suffix}"),
+                                format!("{} vs {}", v.json, v2.json),
+                            ));
                         }
                     }
                 }
@@ -185,21 +270,36 @@ pub fn oracle(c: &AmtCase, obs: &mut Obs) -> Vec<Violation> {
                     let t = n.to_string();
                     let got = DecStr::from_float_text(t.trim_start_matches('-'));
                     if got.as_ref() != Some(&d) && !big {
-                        out.push(viol(format!("C06|{f}|json-value-differs|{cc}"), format!("{:?} exposed as JSON number {}", c.amount, t)));
+                        out.push(viol(
+                            format!("C06|{f}|json-value-differs|{cc}"),
+                            format!("{:?} exposed as JSON number {}", c.amount, t),
+                        ));
                     }
                 }
-                Some(other) => out.push(viol(format!("C06|{f}|json-not-a-number"), format!("{:?} exposed as {}", c.amount, other))),
+                Some(other) => out.push(viol(
+                    format!("C06|{f}|json-not-a-number"),
+                    format!("{:?} exposed as {}", c.amount, other),
+                )),
                 None => {}
             }
             match (ops.from_json)(&v.json) {
                 Ok(v3) => {
                     if v3.json != v.json || v3.swift != v.swift {
-                        out.push(viol(format!("C06|{f}|json-roundtrip-differs|{cc}{suffix}"), format!("{:?}: {} / {:?} vs {} / {:?}", content, v.json, v.swift, v3.json, v3.swift)));
+                        out.push(viol(
+                            format!("C06|{f}|json-roundtrip-differs|{cc}{suffix}"),
+                            format!(
+                                "{:?}: {} / {:?} vs {} / {:?}",
+                                content, v.json, v.swift, v3.json, v3.swift
+                            ),
+                        ));
                     }
                 }
                 Err(e) => {
                     if !e.is_panic() {
-                        out.push(viol(format!("C06|{f}|json-rejected"), format!("{} rejected: {}", v.json, e.text())));
+                        out.push(viol(
+                            format!("C06|{f}|json-rejected"),
+                            format!("{} rejected: {}", v.json, e.text()),
+                        ));
                     }
                 }
             }
@@ -208,17 +308,30 @@ pub fn oracle(c: &AmtCase, obs: &mut Obs) -> Vec<Violation> {
         }
         Err(e) => {
             // every in-format, in-precision decimal must be accepted (strict reading: comma, integer part, within length)
-            let strict = plain && c.amount.contains(',') && !c.amount.starts_with(',') && !c.amount.contains('.') && c.amount.len() <= c.max_len && c.spelling != "zero";
+            let strict = plain
+                && c.amount.contains(',')
+                && !c.amount.starts_with(',')
+                && !c.amount.contains('.')
+                && c.amount.len() <= c.max_len
+                && c.spelling != "zero";
             let precise = match mu {
                 Some(m) => DecStr::written_decimals(&c.amount) <= m as usize,
                 None => !c.with_ccy,
             };
             let in_range = match f.as_str() {
-                "Field36" => crate::spec::G::Amount { max_len: 12, with_ccy: false, kind: crate::spec::AmtKind::Rate36 }.matches(&c.amount, crate::spec::Mode::Strict),
+                "Field36" => crate::spec::G::Amount {
+                    max_len: 12,
+                    with_ccy: false,
+                    kind: crate::spec::AmtKind::Rate36,
+                }
+                .matches(&c.amount, crate::spec::Mode::Strict),
                 _ => true,
             };
             if strict && precise && in_range && !e.is_panic() {
-                out.push(viol(format!("C06|{f}|valid-rejected|{cc}|{}", c.spelling), format!("{:?} rejected: {}", content, e.text())));
+                out.push(viol(
+                    format!("C06|{f}|valid-rejected|{cc}|{}", c.spelling),
+                    format!("{:?} rejected: {}", content, e.text()),
+                ));
             }
         }
     }
@@ -231,7 +344,13 @@ pub fn run(ctx: &Ctx) {
     ctx.assume("ISO-4217 minor-unit table in harness/src/refs.rs; amounts with more than 15 significant digits are a separate class (an f64 cannot hold them)");
     let thorough = !ctx.quick();
     let to_json = |c: &AmtCase| serde_json::to_value(c).unwrap();
-    ctx.run_enumerated("grid", AMOUNT_FIELDS.len(), &|sh| enumerate(sh, thorough), &oracle, &to_json);
+    ctx.run_enumerated(
+        "grid",
+        AMOUNT_FIELDS.len(),
+        &|sh| enumerate(sh, thorough),
+        &oracle,
+        &to_json,
+    );
 }
 
 pub fn replay(_ctx: &Ctx, _sub: &str, case: &Value) -> Vec<Violation> {
